@@ -8,6 +8,7 @@
 #include <cstdio>
 #include <cstring>
 #include <limits>
+#include <memory>
 #include <optional>
 #include <ostream>
 #include <stdexcept>
@@ -132,6 +133,7 @@ struct Ctx {
   bool nonfinite_result = false;
   std::string text;  // last textual result (kept small)
   std::string sv_store[4];  // backing storage for std::string_view operands
+  std::unique_ptr<char[]> sv_buf[4];  // exact-sized, deliberately unaligned buffers for string_view operands
   int sv_used = 0;
 
   void reset(std::uint64_t sd, long p0, long p1, std::ostream* o) {
@@ -317,6 +319,17 @@ inline std::string number_like(Ctx& c) {
     }
     default: return arbitrary_bytes(c);
   }
+}
+
+// A view of exactly s.size() bytes at offset 0..7 of an exact-sized heap buffer: no terminating NUL behind it and no
+// 8-byte alignment, unlike a std::string -- an over-read is an ASan report, a word-wise load a UBSan alignment report.
+inline std::string_view exact_view(Ctx& c, const std::string& s) {
+  const size_t off = static_cast<size_t>(c.next() % 8);
+  std::unique_ptr<char[]>& b = c.sv_buf[c.sv_used++ % 4];
+  const size_t total = off + s.size();
+  b.reset(new char[total ? total : 1]);
+  if (!s.empty()) std::memcpy(b.get() + off, s.data(), s.size());
+  return std::string_view(b.get() + off, s.size());
 }
 
 inline std::string short_string(std::uint64_t idx) {  // index into the enumeration of all byte strings of length 0, 1, 2
